@@ -113,6 +113,9 @@ def check_header(case):
     from ..core import pack_fresh
 
     pack_fresh(devs, "enc.bytes_repeat", h.pack, raw)
+    # documented defaults: no secondary header, unsegmented, version 0
+    hdflt = sp.SpacePacketHeader(packet_type=sp.PacketType(f["ptype"]), apid=f["apid"], seq_count=f["count"], data_len=f["dlen"])
+    eq(devs, "enc.defaults.bytes", bytes(hdflt.pack()), R.sp_header(0, f["ptype"], 0, f["apid"], 3, f["count"], f["dlen"]))
     # the documented plain-integer forms of the enumerated fields ("0 for Telemetry, 1 for Telecommands", flags 0..3)
     hi = sp.SpacePacketHeader(packet_type=f["ptype"], apid=f["apid"], seq_count=f["count"], data_len=f["dlen"], sec_header_flag=bool(f["shf"]), seq_flags=f["flags"], ccsds_version=f["ver"])
     eq(devs, "enc.int_enums.bytes", bytes(hi.pack()), raw)
